@@ -307,11 +307,31 @@ func GuardsOf(info *types.Info, body *ast.BlockStmt, target ast.Node) []Guard {
 				}
 			}
 		case *ast.SwitchStmt:
-			// tagless switch: the matching case condition holds
-			if p.Tag == nil {
-				if blk, ok := child.(*ast.BlockStmt); ok && blk == p.Body && i+2 < len(path) {
-					if cc, ok := path[i+2].(*ast.CaseClause); ok && len(cc.List) == 1 {
-						gs = append(gs, Guard{cc.List[0], true})
+			if blk, ok := child.(*ast.BlockStmt); ok && blk == p.Body && i+2 < len(path) {
+				cc, ok := path[i+2].(*ast.CaseClause)
+				if !ok {
+					break
+				}
+				mk := func(e ast.Expr) ast.Expr {
+					if p.Tag == nil {
+						return e // tagless switch: the case expression is the condition
+					}
+					return &ast.BinaryExpr{X: p.Tag, Op: token.EQL, Y: e} // tagged: tag == case value
+				}
+				if len(cc.List) == 1 {
+					gs = append(gs, Guard{mk(cc.List[0]), true})
+				}
+				// earlier single-valued cases did not match; for the default clause none did
+				for _, other := range p.Body.List {
+					oc := other.(*ast.CaseClause)
+					if oc == cc {
+						if cc.List != nil {
+							break
+						}
+						continue
+					}
+					for _, e := range oc.List {
+						gs = append(gs, Guard{mk(e), false})
 					}
 				}
 			}
@@ -730,3 +750,117 @@ func constructOf(u *FuncUnit, what string) string { return u.Name() + "|" + what
 
 var _ = fmt.Sprintf
 var _ = strings.Contains
+
+// ---------------------------------------------------------------------------
+// name-independent helpers (rules must not depend on what locals are called)
+
+// paramNameOfType returns the name of the first parameter whose type satisfies pred.
+func paramNameOfType(u *FuncUnit, pred func(types.Type) bool) string {
+	sig := u.Fn.Type().(*types.Signature)
+	for i := 0; i < sig.Params().Len(); i++ {
+		if pred(sig.Params().At(i).Type()) {
+			return sig.Params().At(i).Name()
+		}
+	}
+	return ""
+}
+
+func isContextType(t types.Type) bool { return namedIs(t, "context", "Context") }
+
+func isErrorType(t types.Type) bool {
+	n, ok := t.(*types.Named)
+	return ok && n.Obj().Pkg() == nil && n.Obj().Name() == "error"
+}
+
+// isErrNotNil reports whether cond is `X != nil` (or, with neg, `X == nil`) for an X of type error.
+func isErrNotNil(info *types.Info, cond ast.Expr) bool {
+	be, ok := ast.Unparen(cond).(*ast.BinaryExpr)
+	if !ok || be.Op != token.NEQ || !isNilIdent(be.Y) {
+		return false
+	}
+	tv, ok := info.Types[be.X]
+	return ok && isErrorType(tv.Type)
+}
+
+// commaOkSource returns the right-hand side of the `v, ok := rhs` / `v, ok = rhs` statement that
+// most recently precedes the use `id` and defines it as its second variable.
+func commaOkSource(u *FuncUnit, id *ast.Ident) ast.Expr {
+	info := u.Info()
+	v, _ := info.Uses[id].(*types.Var)
+	if v == nil {
+		return nil
+	}
+	var rhs ast.Expr
+	last := token.NoPos
+	ast.Inspect(u.Decl.Body, func(n ast.Node) bool {
+		as, ok := n.(*ast.AssignStmt)
+		if !ok || len(as.Lhs) != 2 || len(as.Rhs) != 1 || as.Pos() > id.Pos() {
+			return true
+		}
+		okID, isID := as.Lhs[1].(*ast.Ident)
+		if !isID || !(info.Defs[okID] == v || info.Uses[okID] == v) {
+			return true
+		}
+		if as.Pos() >= last {
+			last = as.Pos()
+			rhs = as.Rhs[0]
+		}
+		return true
+	})
+	return rhs
+}
+
+// guardIdentSource: if the guard condition is a bare identifier defined by a comma-ok statement,
+// returns that statement's right-hand side.
+func guardIdentSource(u *FuncUnit, g Guard) ast.Expr {
+	id, ok := ast.Unparen(g.Cond).(*ast.Ident)
+	if !ok {
+		return nil
+	}
+	return commaOkSource(u, id)
+}
+
+// nilTestOf decodes a guard as a nil test of some expression: returns the tested expression and
+// whether the guard asserts it to be NON-nil. Handles `x != nil`, `x == nil` and both polarities.
+func nilTestOf(g Guard) (ast.Expr, bool, bool) {
+	be, ok := ast.Unparen(g.Cond).(*ast.BinaryExpr)
+	if !ok || (be.Op != token.NEQ && be.Op != token.EQL) {
+		return nil, false, false
+	}
+	var x ast.Expr
+	if isNilIdent(be.Y) {
+		x = be.X
+	} else if isNilIdent(be.X) {
+		x = be.Y
+	} else {
+		return nil, false, false
+	}
+	nonNil := (be.Op == token.NEQ) == g.Pos
+	return x, nonNil, true
+}
+
+// guardErrIsNil / guardErrNotNil: the guard establishes that an error-typed expression (optionally a
+// specific variable name) is nil / non-nil.
+func guardErrIsNil(info *types.Info, g Guard, name string) bool {
+	x, nonNil, ok := nilTestOf(g)
+	if !ok || nonNil {
+		return false
+	}
+	if name != "" {
+		return exprStr(x) == name
+	}
+	tv, ok := info.Types[x]
+	return ok && isErrorType(tv.Type)
+}
+
+func guardErrNotNil(info *types.Info, g Guard, name string) bool {
+	x, nonNil, ok := nilTestOf(g)
+	if !ok || !nonNil {
+		return false
+	}
+	if name != "" {
+		return exprStr(x) == name
+	}
+	tv, ok := info.Types[x]
+	return ok && isErrorType(tv.Type)
+}
